@@ -225,6 +225,13 @@ def placed_body(ctx, case):
         got = np.diff(np.asarray(config.grid.edges(a), dtype=np.float64))
         want = np.diff(E[a][exp["m"][a]:])
         ctx.close(got, want, tol=ctx.tol(1e-9, 1e-5), msg=f"reduced grid is not the upper half on axis {a}")
+        if rect:
+            # an explicit grid's edge arrays are sliced onto the kept upper half: the reduced grid keeps the upper half's
+            # own coordinates (not those of the discarded half, nor re-based ones)
+            ge = np.asarray(config.grid.edges(a), dtype=np.float64)
+            we = E[a][exp["m"][a]:]
+            ctx.close(ge, we, scale=float(np.abs(E[a]).max()), tol=ctx.tol(1e-9, 1e-5),
+                      msg=f"reduced explicit grid does not keep the upper half's edge coordinates on axis {a}")
 
     by_name = {o.name: o for o in objects.objects}
     volp = by_name["volume"]
